@@ -28,6 +28,18 @@ BUFFERS = {"BrownianStock": ["spot"], "CIRRate": ["spot"], "HestonStock": ["spot
            "MertonJumpStock": ["spot"], "RoughBergomiStock": ["spot", "variance"], "VasicekRate": ["spot"]}
 
 
+INIT_FACTOR = {(S + "rough_bergomi.generate_rough_bergomi", 1): "v0"}
+
+
+def mul_factors(t):
+    """multiplicative factors of a term, through mul and casts"""
+    while isinstance(t, Op) and t.op in ("to", "as_tensor", "float", "double") and t.args:
+        t = t.args[0]
+    if isinstance(t, Op) and t.op == "mul":
+        return mul_factors(t.args[0]) + mul_factors(t.args[1])
+    return [t]
+
+
 class Col0:
     """value of time column 0 of a generator output (None = not derivable)"""
 
@@ -160,6 +172,15 @@ def check(ctx, run):
                     continue
                 if sh is not None and (len(sh) != 2 or sp.simplify(sh[0] - Nsym) != 0 or sp.simplify(sh[1] - Tn) != 0):
                     bad_cols.append(f"output {k}: shape {tuple(str(e) for e in sh)} instead of (n_paths, n_steps)")
+                if iname is None and (q, k) in INIT_FACTOR:
+                    # column 0 is not derivable (kernel convolution); the necessary part is: the series is the requested initial
+                    # component times something that does not depend on the initial state
+                    want = INIT_FACTOR[(q, k)]
+                    facs = mul_factors(o)
+                    hits = [f for f in facs if isinstance(f, Sym) and f.name == want]
+                    elsewhere = sum(1 for f in facs if not (isinstance(f, Sym) and f.name == want) for s_ in walk(f) if isinstance(s_, Sym) and s_.name == want) if facs else 0
+                    if len(hits) != 1 or elsewhere:
+                        bad_c0.append(f"output {k}: not proportional to the requested initial value {want} (factors through {want}: {len(hits)}, other uses: {elsewhere})")
                 if iname is not None:
                     c = Col0()
                     v0 = c.c0(o)
